@@ -100,6 +100,7 @@ type Path struct {
 	isTemplate   bool
 	cloneMemo    map[*Object]*Object
 	cloneMaps    map[*MapObj]*MapObj
+	pin          []InputRec
 	bounds       map[*Term]ival
 	noIntervals  bool
 	impliedMemo  map[[2]int]int
@@ -513,15 +514,40 @@ func (p *Path) buildViolation(kind, tag, msg string, get func([]*Term) []uint64)
 
 func (p *Path) addInput(kind string, t *Term) {
 	p.inputs = append(p.inputs, &InputRec{Kind: kind, term: t, Name: t.Name, Env: p.inModel()})
+	p.pinInput(len(p.inputs) - 1)
+}
+
+// pinInput (symbolic re-validation of a counterexample): constrain the k-th
+// input to the value recorded in the counterexample being re-validated.
+func (p *Path) pinInput(k int) {
+	if p.pin == nil || k >= len(p.pin) {
+		return
+	}
+	rec := p.pin[k]
+	in := p.inputs[k]
+	if rec.Kind != in.Kind {
+		p.end("internal", "re-validation: input %d is %s, counterexample has %s", k, in.Kind, rec.Kind)
+	}
+	tc := p.tc
+	if in.term != nil {
+		if in.term.S.K == SBool {
+			p.assertPC(tc.Eq(in.term, tc.Bool(rec.Val != 0)))
+		} else {
+			p.assertPC(tc.Eq(in.term, tc.Const(in.term.S.W, rec.Val)))
+		}
+	}
+	if in.lenT != nil {
+		p.assertPC(tc.Eq(in.lenT, tc.Const(64, rec.Val)))
+		for i := 0; i < len(rec.Data) && i < 4096; i++ {
+			p.assertPC(tc.Eq(p.readElemAt(in.obj, 0, tc.Const(64, uint64(i))), tc.Const(8, uint64(rec.Data[i]))))
+		}
+	}
 }
 
 // inModel reports whether execution is inside a substituted environment model.
 func (p *Path) inModel() bool {
 	for _, f := range p.stack {
 		if p.eng.isStubFn[f.fn] {
-			return true
-		}
-		if f.fn.Pkg != nil && f.fn.Pkg.Pkg.Path() == vfPkg && f.fn.Name() != "Time" {
 			return true
 		}
 	}
